@@ -114,7 +114,7 @@ func init() {
 		MinDistinct: 20,
 		Plan: func(tier string) []core.Suite {
 			if tier == "thorough" {
-				return []core.Suite{{Name: "states", N: 3000, CaseTimeout: 600}, {Name: "big", N: 120, CaseTimeout: 900}, {Name: "fromroots", N: 400}}
+				return []core.Suite{{Name: "states", N: 20000, CaseTimeout: 600}, {Name: "big", N: 600, CaseTimeout: 900}, {Name: "fromroots", N: 4000}}
 			}
 			return []core.Suite{{Name: "states", N: 240, CaseTimeout: 600}, {Name: "big", N: 8, CaseTimeout: 900}, {Name: "fromroots", N: 24}}
 		},
